@@ -92,7 +92,21 @@ MakeBaseR(Z, T, cs) ==
   ELSE IF CivLess(T[k + 1].pcs, cs) THEN MkSkipped(T[k + 1], cs)
   ELSE IF CivLeq(cs, T[k].pcs) THEN MkRepeated(T[k], cs)
   ELSE UniqueR(T[k].at \oplus CivDiff(cs, T[k].cs))
-\* MakeTime with the year shift and TimeLocal's saturating compensation
+\* MakeTime with the year shift and TimeLocal's saturating compensation.  As repaired (ee7d828) the cycles are
+\* added in steps of at most MaxStep = floor(TMax / K400) cycles, each representable, saturating at TMax only
+\* when the running sum would really exceed it: the unshifted instant may precede the epoch (tables that end
+\* before 1970 + 400), so the whole product shift * K400 need not fit although the sum does.  (The pinned design
+\* - "IF MaxStep < shift THEN TMax" and one addition - fails MakeRefines on the zones whose data end before 1795.)
+MaxStep == WFloorDiv(TMax, K400)[1]
+RECURSIVE SatUp(_, _)
+SatUp(x, left) ==           \* [v |-> x + left * K400 saturated at TMax, fits |-> every intermediate fits int64]
+  IF ~(WZero \prec left) THEN [v |-> x, fits |-> TRUE]
+  ELSE LET step == IF left \prec MaxStep THEN left ELSE MaxStep
+           off == WMul(step, K400)
+           lim == TMax \ominus off
+       IN  IF lim \prec x THEN [v |-> TMax, fits |-> Fits(off) /\ Fits(lim)]
+           ELSE LET nx == SatUp(x \oplus off, left \ominus step) IN
+                [v |-> nx.v, fits |-> Fits(off) /\ Fits(lim) /\ Fits(x \oplus off) /\ nx.fits]
 MakeR(Z, T, cs) ==
   LET n == Len(T)
       ly == LastYear(Z) IN
@@ -101,12 +115,8 @@ MakeR(Z, T, cs) ==
         shift == WDiv(dy, 400) \oplus W(1)
         cs2 == <<cs[1] \ominus WMulSmall(shift, 400), cs[2], cs[3], cs[4], cs[5], cs[6]>>
         m == MakeBaseR(Z, T, cs2)
-        maxShift == WFloorDiv(TMax, K400)[1]
-        off == WMul(shift, K400)
-        lim == TMax \ominus off
-        Up(x) == IF lim \prec x THEN TMax ELSE x \oplus off
-    IN  IF maxShift \prec shift THEN [r |-> [kind |-> m.kind, pre |-> TMax, trans |-> TMax, post |-> TMax], fits |-> Fits(dy)]
-        ELSE [r |-> [kind |-> m.kind, pre |-> Up(m.pre), trans |-> Up(m.trans), post |-> Up(m.post)],
-              fits |-> Fits(dy) /\ Fits(off) /\ Fits(lim) /\ (ly \ominus W(400)) \prec cs2[1] /\ cs2[1] \preceq ly]
+        a == SatUp(m.pre, shift)  b == SatUp(m.trans, shift)  c == SatUp(m.post, shift)
+    IN  [r |-> [kind |-> m.kind, pre |-> a.v, trans |-> b.v, post |-> c.v],
+         fits |-> Fits(dy) /\ a.fits /\ b.fits /\ c.fits /\ (ly \ominus W(400)) \prec cs2[1] /\ cs2[1] \preceq ly]
   ELSE [r |-> MakeBaseR(Z, T, cs), fits |-> TRUE]
 =============================================================================
